@@ -31,6 +31,10 @@ SEARCH_KEYS = [b'ALL', b'BODY hello', b'TEXT value', b'SUBJECT a', b'FROM x', b'
 
 def known_sig(clause, meta, tr):
     """narrow signatures of the open known findings"""
+    if meta['kind'] == 'message' and 'BINARY' in meta.get('last_cmd', '') \
+            and meta.get('exc_type') in ('binascii.Error', 'builtins.NotImplementedError') \
+            and clause in ('C06_NoException', 'C06_Answered', 'C06_ByeBeforeClose'):
+        return 'BinaryFetchUndecodableCTE'
     return None
 
 
@@ -139,11 +143,13 @@ def main(tier: str) -> int:
             c = T.prepare(mw, f'c{n}', 'auth')
             tr.off = len(c.writer.out)
             hang = False
+            last_cmd = b''
             try:
                 with T.Watchdog(8.0):
                     for i, cmd in enumerate(cmds):
                         if c.done:
                             break
+                        last_cmd = cmd
                         for _ in range(max(1, T.logical_lines(b'm%d ' % i + cmd))):
                             tr.events.append({'e': 'in'})
                         mw.send(f'c{n}', b'm%d ' % i + cmd)
@@ -160,8 +166,13 @@ def main(tier: str) -> int:
                 mw.close()
             else:
                 record_w = None
+            exc_type = ''
+            if c.done and not c.task.cancelled() and c.task.exception() is not None:
+                e = c.task.exception()
+                exc_type = f'{type(e).__module__}.{type(e).__name__}'
             traces.append(tr.events)
             meta.append({'kind': 'message', 'backend': backend, 'tokens': mt,
+                         'last_cmd': last_cmd[:80].decode('latin1'), 'exc_type': exc_type,
                          'bytes': [body[:300].decode('latin1')],
                          'malformed': tr.malformed[1] if tr.malformed else None})
             if hang and backend == 'dict':
